@@ -191,9 +191,9 @@ def rust_str(s):
 # ---- sample field texts for the bounded stand-in (vwit C16): by deserializer, then by leaf type ---------------------
 SAMPLE_BY_DE = {
     "deserialize_yesno": "yes", "deserialize_list": "a\nb", "deserialize_file_list": "*.c\nsrc/*", "deserialize_copyrights": "2020 A\n2021 B",
-    "deserialize_string_chain": "a b", "deserialize_types": "deb", "deserialize_uris": "http://deb.example.org/debian", "deserialize_pathbuf": "/a/b",
+    "deserialize_string_chain": "a b", "deserialize_types": "deb\ndeb-src", "deserialize_uris": "http://deb.example.org/debian", "deserialize_pathbuf": "/a/b",
     "deserialize_package_list": "foo deb utils optional arch=any", "deserialize_binaries": "foo bar", "deserialize_date": "2020-01-02",
-    "deserialize_origin": "upstream, https://x.example/1", "deserialize_env": "LANG=\"C\"", "deserialize_version": "1.0-1",
+    "deserialize_origin": "upstream, https://x.example/1", "deserialize_env": "A=\"1\"\nLANG=\"C\"\nTZ=\"UTC\"", "deserialize_version": "1.0-1",
     "deserialize_components": "main contrib", "deserialize_architectures": "amd64 i386",
     "de_tag": "<t>", "de_words": "w1 w2", "de_flag": "yes", "de_hex": "0x1f", "de_dec": "7",
 }
